@@ -59,7 +59,7 @@ func init() {
 		Mutant{Name: "c17-remove-returns-early-for-unknown-name", Property: "C17", Rule: "C17.register", Edits: []Edit{{"callbacks.go",
 			"\tc.name = name\n\tc.remove = true\n", "\tc.name = name\n\tc.remove = true\n\tif len(c.processor.callbacks) == 0 {\n\t\treturn c.processor.compile()\n\t}\n"}}},
 		Mutant{Name: "n90-replace-append-through-a-local-list", Property: "*", Rule: "NEUTRAL", Edits: []Edit{{"callbacks.go",
-			"\tc.replace = true\n\tc.processor.callbacks = append(c.processor.callbacks, c)\n\treturn c.processor.compile()", "\tc.replace = true\n\tproc := c.processor\n\tproc.callbacks = append(proc.callbacks, c)\n\treturn proc.compile()"}}},
+			"\t\t}\n\t}\n\tc.processor.callbacks = append(c.processor.callbacks, c)\n\treturn c.processor.compile()", "\t\t}\n\t}\n\tproc := c.processor\n\tproc.callbacks = append(proc.callbacks, c)\n\treturn proc.compile()"}}},
 	)
 }
 
